@@ -52,7 +52,7 @@ func smallCarry(m *model.Model, v ssa.Value, depth int, seen map[ssa.Value]bool)
 		if !ok {
 			return false
 		}
-		if cal := call.Call.StaticCallee(); cal != nil {
+		if cal := model.Unthunk(call.Call.StaticCallee()); cal != nil {
 			n := cal.Name()
 			if cal.Pkg != nil && cal.Pkg.Pkg.Path() == "math/bits" && (strings.HasPrefix(n, "Add") || strings.HasPrefix(n, "Sub")) {
 				return x.Index == 1
@@ -159,7 +159,7 @@ func usesWordBase(m *model.Model, fn *ssa.Function, depth int) bool {
 			}
 			if depth > 0 {
 				if ci, ok := in.(ssa.CallInstruction); ok {
-					if cal := ci.Common().StaticCallee(); cal != nil && m.InDecimalPkg(cal) && len(cal.Blocks) > 0 && cal != fn && usesWordBase(m, cal, depth-1) {
+					if cal := model.Unthunk(ci.Common().StaticCallee()); cal != nil && m.InDecimalPkg(cal) && len(cal.Blocks) > 0 && cal != fn && usesWordBase(m, cal, depth-1) {
 						return true
 					}
 				}
